@@ -84,7 +84,7 @@ func DrawOut(r *core.Run, hostileMode int, needURL bool) *Out {
 	if ecSigner {
 		o.SigKey = world.FirstEC + t.Int(2, "out.eckey")
 	}
-	nb, na := s.Epoch.Add(-24*time.Hour), s.Epoch.Add(400*24*time.Hour)
+	nb, na := s.Epoch.Add(-40*24*time.Hour), s.Epoch.Add(800*24*time.Hour)
 	o.EncCert = world.MintCert(o.EncKey, nb, na, 1)
 	o.SigCert = world.MintCert(o.SigKey, nb, na, 2)
 	s.Cfg.EncStyle, s.Cfg.EncKeyIdx, s.Cfg.EncCert = o.EncStyle, o.EncKey, o.EncCert
